@@ -7,8 +7,9 @@ BOUNDS = {
     'quick': 'n = 1 with 4 free tags (G6) and n = 2 with 2 free tags per word (G5, G3c); pruning_size in {1,2,3}; beta filter on with beta in {0.5, 0.05, 1e-5} and off; all tag scores integer solver variables; per path: every leaf of every returned tree is within the statement\'s beam, and a failed parse implies no derivation lies inside the (tie-strict) beam',
     'thorough': 'adds n = 2 with 3 free tags on one word, rows flattened far below (tags constrained < all others by the dictionary value)',
 }
-OUTSIDE = c01.OUTSIDE + '; rounding of exp() within 0.004 of the beta boundary (integer scores keep s - best - ln(beta) away from 0)'
-ASSUMPTIONS = c01.ASSUMPTIONS + ['beam as stated: fewer than pruning_size tags of the word score strictly higher, and (filter on) s >= s_best + ln(beta); completeness is demanded for the tie-strict beam only (ties at the cut are implementation-defined)']
+OUTSIDE = c01.OUTSIDE + '; rounding of exp() within 0.004 of the beta boundary (integer scores keep s - best - ln(beta) away from 0); tag scores between -200 and -100 (denormal range of expf)'
+ASSUMPTIONS = c01.ASSUMPTIONS + ['with the beta filter on, tag scores are either in [-100, 0] or flattened (<= -200, the category dictionary\'s huge negative value): expf is modelled with its float32 underflow to 0 below ln(2^-150)',
+                                 'beam as stated: fewer than pruning_size tags of the word score strictly higher, and (filter on) s >= s_best + ln(beta); completeness is demanded for the tie-strict beam only (ties at the cut are implementation-defined)']
 
 
 def obligations(tier):
@@ -17,15 +18,18 @@ def obligations(tier):
     for p in (1, 2, 3):
         obs.append(S.SOb('C16.beam[G6,n=1,tags=4,prune=%d,filter=off]' % p, S.G6(), 1, pruning=p, penalty='sym'))
     for beta in (0.5, 0.05, 1e-5):
-        obs.append(S.SOb('C16.beam[G6,n=1,tags=4,prune=4,beta=%g]' % beta, S.G6(), 1, pruning=4, penalty='sym', use_beta=True, beta=beta))
-    obs.append(S.SOb('C16.beam[G6,n=1,tags=4,prune=2,beta=0.05]', S.G6(), 1, pruning=2, penalty='sym', use_beta=True, beta=0.05))
+        obs.append(S.SOb('C16.beam[G6,n=1,tags=4,prune=4,beta=%g]' % beta, S.G6(), 1, pruning=4, penalty='sym', use_beta=True, beta=beta, lo=-100))
+    # rows partly flattened by the category dictionary (value <= -200: its probability is 0 in float32)
+    for flat in ([(0, 1)], [(0, 0), (0, 3)]):
+        obs.append(S.SOb('C16.beam[G6,n=1,tags=4,prune=4,beta=1e-05,flattened=%s]' % [c for _, c in flat], S.G6(), 1, pruning=4, penalty='sym', use_beta=True, beta=1e-5, lo=-100, flat=flat))
+    obs.append(S.SOb('C16.beam[G6,n=1,tags=4,prune=2,beta=0.05]', S.G6(), 1, pruning=2, penalty='sym', use_beta=True, beta=0.05, lo=-100))
     obs.append(S.SOb('C16.beam[G5,n=2,tags=2,prune=1,filter=off]', S.G5(True), 2, pruning=1, penalty='0'))
-    obs.append(S.SOb('C16.beam[G5,n=2,tags=2,prune=2,beta=0.5]', S.G5(True), 2, pruning=2, penalty='0', use_beta=True, beta=0.5))
-    obs.append(S.SOb('C16.beam[G5r,n=2,tags=2,prune=2,beta=0.05]', S.G5(False), 2, pruning=2, penalty='0', use_beta=True, beta=0.05))
+    obs.append(S.SOb('C16.beam[G5,n=2,tags=2,prune=2,beta=0.5]', S.G5(True), 2, pruning=2, penalty='0', use_beta=True, beta=0.5, lo=-100))
+    obs.append(S.SOb('C16.beam[G5r,n=2,tags=2,prune=2,beta=0.05]', S.G5(False), 2, pruning=2, penalty='0', use_beta=True, beta=0.05, lo=-100))
     obs.append(S.SOb('C16.beam[G3c,n=2,tags=2,prune=1,filter=off]', S.G3(True), 2, pruning=1, penalty='sym'))
     if not q:
-        obs.append(S.SOb('C16.beam[G3c,n=2,tags=2,prune=2,beta=0.05]', S.G3(True), 2, pruning=2, penalty='sym', use_beta=True, beta=0.05, max_seconds=900))
-        obs.append(S.SOb('C16.beam[G6,n=1,tags=4,prune=3,beta=1e-5,row flattened]', S.G6(), 1, [(0, 2), (0, 3)], pruning=3, penalty='sym', use_beta=True, beta=1e-5))
+        obs.append(S.SOb('C16.beam[G3c,n=2,tags=2,prune=2,beta=0.05]', S.G3(True), 2, pruning=2, penalty='sym', use_beta=True, beta=0.05, lo=-100, max_seconds=900))
+        obs.append(S.SOb('C16.beam[G6,n=1,tags=4,prune=3,beta=1e-5,flattened=[2,3]]', S.G6(), 1, pruning=3, penalty='sym', use_beta=True, beta=1e-5, lo=-100, flat=[(0, 2), (0, 3)]))
     return obs
 
 
